@@ -3,6 +3,7 @@ code, snapshots, invariants, op generators."""
 import copy
 from fractions import Fraction
 
+import json
 import numpy as np
 
 from . import fieldio
@@ -184,8 +185,28 @@ def build_object(spec):
     subs = {}
     for k, a, b in spec.get("subs", []):
         a, b = corners(a, b, spec["mesh"].get("intcorners"))
-        subs[k] = df.Region(p1=a, p2=b)
+        kw = {}
+        if spec.get("alias"):                    # subregions that already carry the mesh region's names and units
+            if spec["mesh"].get("dims"):
+                kw["dims"] = spec["mesh"]["dims"]
+            if spec["mesh"].get("units"):
+                kw["units"] = spec["mesh"]["units"]
+        subs[k] = df.Region(p1=a, p2=b, **kw)
+    alias = spec.get("alias")
+    if alias == "twonames" and subs:
+        subs["zdup"] = subs[next(iter(subs))]        # ONE Region object registered under two names
     mesh = fieldio.build_mesh(spec["mesh"], subregions=subs or None)
+    if alias == "ownregion":
+        mesh.subregions = {**mesh.subregions, "own": mesh.region}     # the mesh's own Region object as a subregion
+    elif alias == "shareddict" and subs:
+        # the caller's dict of Region objects is used for a second mesh, which is then moved in place: the first
+        # mesh holds its own subregions, not the caller's objects
+        other = df.Mesh(region=df.Region(p1=mesh.region.pmin, p2=mesh.region.pmax, dims=mesh.region.dims, units=mesh.region.units),
+                        n=mesh.n, subregions=subs)
+        other.translate(mesh.region.edges, inplace=True)
+        other.scale(2, inplace=True)
+        for r in subs.values():
+            r.translate(mesh.region.edges * 3, inplace=True)
     if kind == "mesh":
         return mesh
     nv = spec["nvdim"]
@@ -196,6 +217,10 @@ def build_object(spec):
         kw["vdims"] = spec["vdims"]
     if spec.get("vmap") is not None:
         kw["vdim_mapping"] = dict(spec["vmap"])
+    if spec.get("dtype"):
+        # integer / single-precision / complex storage of the same (small integer) numbers
+        arr = arr.astype(spec["dtype"])
+        kw["dtype"] = np.dtype(spec["dtype"])
     return df.Field(mesh, nvdim=nv, value=arr, valid=valid, unit=spec.get("unit"), **kw)
 
 
@@ -223,6 +248,8 @@ def gen_object_spec(rng, kind, ndim=None, with_subs=True, units=True):
         spec = dict(kind=kind, mesh=ms)
         if with_subs and rng.random() < 0.7:
             spec["subs"] = gen_subs(rng, ms, rng.randint(1, 3))
+            if rng.random() < 0.3:
+                spec["alias"] = rng.choice(["twonames", "ownregion", "shareddict"])
     nd = len(ms["p1"])
     if units and rng.random() < 0.6:
         u = [rng.choice(["m", "nm", "s", "T", "rad", "um"]) for _ in range(nd)]
@@ -236,6 +263,8 @@ def gen_object_spec(rng, kind, ndim=None, with_subs=True, units=True):
         spec["nvdim"] = nv
         spec["data"] = [rng.randint(-9, 9) for _ in range(ncell * nv)]
         spec["vexp"] = rng.choice([0, 0, 0, -3, -30, -45, -60, 40])      # values = ints * 2**vexp: magnitudes 1e-18 ... 1e13, still exact
+        if spec["vexp"] == 0 and rng.random() < 0.4:
+            spec["dtype"] = rng.choice(["int64", "int32", "int8", "float32", "complex128"])   # small integers: exact in each
         spec["valid"] = [rng.random() < 0.8 for _ in range(ncell)]
         spec["unit"] = rng.choice([None, "A/m"])
         dims = ms["dims"] or (["x", "y", "z"][:nd] if nd <= 3 else [f"x{i}" for i in range(nd)])
@@ -321,8 +350,34 @@ def gen_op(rng, spec, allow_bad=True, far=True, rot_ref_small=False):
     op = dict(t="rotate90", ax1=a1, ax2=a2, k=rng.randint(-6, 6), ref=r, inplace=inplace, form=form)
     if allow_bad and rng.random() < 0.08:
         # arguments only the innermost call refuses: they must be refused in both forms with nothing changed
-        op["badarg"] = rng.choice(["k_float", "k_half", "ref_len", "ref_str", "ref_scalar"])
+        op["badarg"] = rng.choice(["k_float", "k_half", "ref_len", "ref_str", "ref_scalar", "ax_case", "ax_case"])
+        if op["badarg"] == "ax_case" and (a1.swapcase() in dims or a1.swapcase() == a1):
+            del op["badarg"]                  # the other spelling names an axis too (or there is none): not malformed
     return op
+
+
+def rescale_case(spec, ops, e):
+    """the same object and history with every length multiplied by 2**e (exact in binary64): meshes of nanometre
+    cells whose far translations stay far below the ABSOLUTE 1e-12 of the alignment test (D18)"""
+    s = 2.0 ** e if isinstance(e, int) else float(e)
+    sc = lambda xs: None if xs is None else [x * s for x in xs]
+    spec = json.loads(json.dumps(spec))
+    tgt = spec if spec["kind"] == "region" else spec["mesh"]
+    tgt["p1"], tgt["p2"] = sc(tgt["p1"]), sc(tgt["p2"])
+    tgt["intcorners"] = False
+    if spec.get("subs"):
+        spec["subs"] = [[k, sc(a), sc(b)] for k, a, b in spec["subs"]]
+    out = []
+    for op in ops:
+        op = dict(op)
+        if op["t"] == "translate":
+            op["v"] = sc(op["v"])
+        else:
+            op["ref"] = sc(op.get("ref"))
+        if op.get("form") == "intlist":
+            op["form"] = "list"
+        out.append(op)
+    return spec, out
 
 
 def _as_form(x, form):
@@ -372,6 +427,8 @@ def apply_op(o, op, inplace=None):
         elif bad == "ref_scalar" and len(region_of(o).pmin) > 1:
             ref = 1.5
         args["ref"] = ref
+        if bad == "ax_case":      # an axis name in the wrong case is not an axis name
+            return o.rotate90(op["ax1"].swapcase(), op["ax2"], k=k, reference_point=ref, inplace=ip)
         return o.rotate90(op["ax1"], op["ax2"], k=k, reference_point=ref, inplace=ip)
     finally:
         for key, a in args.items():
